@@ -1,6 +1,7 @@
 package checks
 
 import (
+	"encoding/base64"
 	"fmt"
 	"reflect"
 	"strings"
@@ -177,7 +178,7 @@ func sexprIndex(base string, x *gojq.Index) string {
 
 func c09OperatorGrammar() *gen.Grammar {
 	g := &gen.Grammar{
-		Name: "C09-operators",
+		Name:  "C09-operators",
 		Atoms: []gen.Expr{gen.A("1"), gen.AT(".a", "(field:a .)"), gen.A("f")},
 	}
 	bin := func(op string, lvl, l, r int) {
@@ -211,15 +212,31 @@ func c09DelimiterGrammar() *gen.Grammar {
 			gen.Bin("|", gen.LPipe, gen.LComma, gen.LPipe), gen.Comma, gen.Bin("//", gen.LAlt, gen.LUpdate, gen.LAlt), gen.Bin("=", gen.LUpdate, gen.LOr, gen.LOr),
 			gen.Bin("and", gen.LAnd, gen.LAnd, gen.LCmp), gen.Bin("==", gen.LCmp, gen.LAdd, gen.LAdd), gen.Bin("+", gen.LAdd, gen.LAdd, gen.LMul), gen.Bin("*", gen.LMul, gen.LMul, gen.LTerm),
 			// unary sign: applies to the following term with its suffixes; the result is an operand of * and +
-			{Name: "neg", Arity: 1, Build: func(a []gen.Expr) gen.Expr { return gen.Expr{S: "-" + gen.P(a[0], gen.LTerm), L: gen.LTerm, T: "(neg " + a[0].T + ")"} }},
-			{Name: "field", Arity: 1, Build: func(a []gen.Expr) gen.Expr { return gen.Expr{S: suffixBase(a[0]) + ".b", L: suffixLevel(a[0]), T: wrapSuffix(a[0], "(field:b %s)")} }},
-			{Name: "iter", Arity: 1, Build: func(a []gen.Expr) gen.Expr { return gen.Expr{S: suffixBase(a[0]) + "[]", L: suffixLevel(a[0]), T: wrapSuffix(a[0], "(iter %s)")} }},
-			{Name: "opt", Arity: 1, Build: func(a []gen.Expr) gen.Expr { return gen.Expr{S: suffixBase(a[0]) + "?", L: suffixLevel(a[0]), T: wrapSuffix(a[0], "(opt %s)")} }},
+			{Name: "neg", Arity: 1, Build: func(a []gen.Expr) gen.Expr {
+				return gen.Expr{S: "-" + gen.P(a[0], gen.LTerm), L: gen.LTerm, T: "(neg " + a[0].T + ")"}
+			}},
+			{Name: "field", Arity: 1, Build: func(a []gen.Expr) gen.Expr {
+				return gen.Expr{S: suffixBase(a[0]) + ".b", L: suffixLevel(a[0]), T: wrapSuffix(a[0], "(field:b %s)")}
+			}},
+			{Name: "iter", Arity: 1, Build: func(a []gen.Expr) gen.Expr {
+				return gen.Expr{S: suffixBase(a[0]) + "[]", L: suffixLevel(a[0]), T: wrapSuffix(a[0], "(iter %s)")}
+			}},
+			{Name: "opt", Arity: 1, Build: func(a []gen.Expr) gen.Expr {
+				return gen.Expr{S: suffixBase(a[0]) + "?", L: suffixLevel(a[0]), T: wrapSuffix(a[0], "(opt %s)")}
+			}},
 			// the dot-bracket spellings: t.[0], t.[], t.["k"], t."k"
-			{Name: "dotindex", Arity: 1, Build: func(a []gen.Expr) gen.Expr { return gen.Expr{S: suffixBase(a[0]) + ".[0]", L: suffixLevel(a[0]), T: wrapSuffix(a[0], "(index %s 0)")} }},
-			{Name: "dotiter", Arity: 1, Build: func(a []gen.Expr) gen.Expr { return gen.Expr{S: suffixBase(a[0]) + ".[]", L: suffixLevel(a[0]), T: wrapSuffix(a[0], "(iter %s)")} }},
-			{Name: "dotstr", Arity: 1, Build: func(a []gen.Expr) gen.Expr { return gen.Expr{S: suffixBase(a[0]) + `."k"`, L: suffixLevel(a[0]), T: wrapSuffix(a[0], `(fieldstr %s "k")`)} }},
-			{Name: "dotslice", Arity: 1, Build: func(a []gen.Expr) gen.Expr { return gen.Expr{S: suffixBase(a[0]) + ".[1:]", L: suffixLevel(a[0]), T: wrapSuffix(a[0], "(slice %s 1 _)")} }},
+			{Name: "dotindex", Arity: 1, Build: func(a []gen.Expr) gen.Expr {
+				return gen.Expr{S: suffixBase(a[0]) + ".[0]", L: suffixLevel(a[0]), T: wrapSuffix(a[0], "(index %s 0)")}
+			}},
+			{Name: "dotiter", Arity: 1, Build: func(a []gen.Expr) gen.Expr {
+				return gen.Expr{S: suffixBase(a[0]) + ".[]", L: suffixLevel(a[0]), T: wrapSuffix(a[0], "(iter %s)")}
+			}},
+			{Name: "dotstr", Arity: 1, Build: func(a []gen.Expr) gen.Expr {
+				return gen.Expr{S: suffixBase(a[0]) + `."k"`, L: suffixLevel(a[0]), T: wrapSuffix(a[0], `(fieldstr %s "k")`)}
+			}},
+			{Name: "dotslice", Arity: 1, Build: func(a []gen.Expr) gen.Expr {
+				return gen.Expr{S: suffixBase(a[0]) + ".[1:]", L: suffixLevel(a[0]), T: wrapSuffix(a[0], "(slice %s 1 _)")}
+			}},
 			{Name: "index", Arity: 2, Build: func(a []gen.Expr) gen.Expr {
 				return gen.Expr{S: suffixBase(a[0]) + "[" + a[1].S + "]", L: suffixLevel(a[0]), T: wrapSuffix(a[0], "(index %s "+a[1].T+")")}
 			}},
@@ -233,7 +250,9 @@ func c09DelimiterGrammar() *gen.Grammar {
 			{Name: "label", Arity: 1, Build: func(a []gen.Expr) gen.Expr {
 				return gen.Expr{S: "label $l | " + a[0].S, L: gen.LPipe, T: "(label $l " + a[0].T + ")"}
 			}},
-			{Name: "try", Arity: 1, Build: func(a []gen.Expr) gen.Expr { return gen.Expr{S: "try " + gen.P(a[0], gen.LTerm), L: gen.LTerm, T: "(try " + a[0].T + ")"} }},
+			{Name: "try", Arity: 1, Build: func(a []gen.Expr) gen.Expr {
+				return gen.Expr{S: "try " + gen.P(a[0], gen.LTerm), L: gen.LTerm, T: "(try " + a[0].T + ")"}
+			}},
 			{Name: "trycatch", Arity: 2, Build: func(a []gen.Expr) gen.Expr {
 				body := gen.P(a[0], gen.LTerm)
 				if strings.Contains(body, "try ") && !strings.HasPrefix(body, "(") {
@@ -247,14 +266,18 @@ func c09DelimiterGrammar() *gen.Grammar {
 			{Name: "reduce", Arity: 3, Build: func(a []gen.Expr) gen.Expr {
 				return gen.Expr{S: "reduce " + gen.P(a[0], gen.LTerm) + " as $x (" + a[1].S + "; " + a[2].S + ")", L: gen.LTerm, T: "(reduce " + a[0].T + " $x " + a[1].T + " " + a[2].T + ")"}
 			}},
-			{Name: "array", Arity: 1, Build: func(a []gen.Expr) gen.Expr { return gen.Expr{S: "[" + a[0].S + "]", L: gen.LTerm, T: "(array " + a[0].T + ")"} }},
+			{Name: "array", Arity: 1, Build: func(a []gen.Expr) gen.Expr {
+				return gen.Expr{S: "[" + a[0].S + "]", L: gen.LTerm, T: "(array " + a[0].T + ")"}
+			}},
 			{Name: "objval", Arity: 1, Build: func(a []gen.Expr) gen.Expr {
 				return gen.Expr{S: "{a: " + gen.P(a[0], gen.LAlt) + "}", L: gen.LTerm, T: "(object a:" + a[0].T + ")"}
 			}},
 			{Name: "call", Arity: 2, Build: func(a []gen.Expr) gen.Expr {
 				return gen.Expr{S: "g(" + a[0].S + "; " + a[1].S + ")", L: gen.LTerm, T: "(call g " + a[0].T + " " + a[1].T + ")"}
 			}},
-			{Name: "interp", Arity: 1, Build: func(a []gen.Expr) gen.Expr { return gen.Expr{S: `"x\(` + a[0].S + `)y"`, L: gen.LTerm, T: `(str "x" ` + a[0].T + ` "y")`} }},
+			{Name: "interp", Arity: 1, Build: func(a []gen.Expr) gen.Expr {
+				return gen.Expr{S: `"x\(` + a[0].S + `)y"`, L: gen.LTerm, T: `(str "x" ` + a[0].T + ` "y")`}
+			}},
 		},
 	}
 	return g
@@ -275,7 +298,7 @@ func suffixBase(e gen.Expr) string {
 	}
 	return e.S
 }
-func suffixLevel(e gen.Expr) int { return gen.LTerm }
+func suffixLevel(e gen.Expr) int             { return gen.LTerm }
 func wrapSuffix(e gen.Expr, f string) string { return fmt.Sprintf(f, e.T) }
 
 // ---- reference tokenizer (for re-spacing) ----
@@ -553,6 +576,56 @@ func c09Run(c *engine.Ctx) {
 	check("delimiters", c09DelimiterGrammar(), delSize, true)
 	check("surface", c09SurfaceGrammar(), surfSize, false)
 
+	// string literals: every sequence of <= 3 pieces (raw bytes incl. invalid UTF-8, escapes, surrogate escapes, an
+	// interpolation) in every position a string can stand; printing must give a text that parses to the same AST
+	// and evaluates to the same value
+	c.Sub("string-literals")
+	{
+		pieces := []string{"a", "é", "\x80", "\xff", "\xc3", "\xed\xa0\x80", "😀", "\u2028", "\t", "\n", "\x7f", " ", `\"`, `\\`, `\/`, `\n`, `\t`, `\u0041`, `\u00e9`, `\ud800`, `\udc00`, `\ud83d\ude00`, `\u0000`, `\(1)`, `\("x")`, "'", "#", `\ufffd`}
+		shapes := []string{`"%s"`, `{"%s": 1}`, `."%s"`, `.["%s"]`, `@json "%s"`, `{a: "%s"} | .a`, `"%s" as $x | $x`, `. as {"%s": $v} | $v`, `"x\("%s")"`}
+		var texts []string
+		texts = append(texts, "")
+		for _, a := range pieces {
+			texts = append(texts, a)
+			for _, b := range pieces {
+				texts = append(texts, a+b)
+				if !quick || (len(a)+len(b))%2 == 0 {
+					for _, d := range pieces {
+						texts = append(texts, a+b+d)
+					}
+				}
+			}
+		}
+		for ti, t := range texts {
+			if !c.MineIdx(ti) || c.Expired() {
+				continue
+			}
+			for _, shape := range shapes {
+				src := strings.Replace(shape, "%s", t, 1)
+				c.Eval()
+				q, err := gojq.Parse(src)
+				if err != nil {
+					c.Outcome("string literal rejected")
+					continue
+				}
+				c.DistinctN(1)
+				c.Outcome("string literal accepted")
+				if msg := c09RoundTrip(src, q); msg != "" {
+					c.Violation(src, "round-trip", map[string]any{"query": src, "query_b64": base64.StdEncoding.EncodeToString([]byte(src)), "why": msg})
+					continue
+				}
+				// same meaning: the printed text evaluates like the original
+				if q2, err := gojq.Parse(q.String()); err == nil {
+					o1, o2 := Drain(q.Run(map[string]any{}), nil, 10), Drain(q2.Run(map[string]any{}), nil, 10)
+					if o1.String() != o2.String() {
+						c.Violation(src, "round-trip", map[string]any{"query": src, "query_b64": base64.StdEncoding.EncodeToString([]byte(src)), "why": fmt.Sprintf("the query yields %s, its printed form %q yields %s", o1.String(), q.String(), o2.String())})
+					}
+				}
+			}
+		}
+		c.Sample(map[string]any{"literal": `"a\x80\ud800\(1)"`, "shapes": len(shapes), "pieces": len(pieces)})
+	}
+
 	// a binding as the right operand of an operator: jq's grammar is `Term as Patterns | Pipe`, so the
 	// source is the term next to `as` and the body extends to the right as far as possible
 	c.Sub("as-operand")
@@ -655,6 +728,12 @@ func c09Run(c *engine.Ctx) {
 
 func c09Replay(v *engine.Violation) (bool, string) {
 	src, _ := v.Detail["query"].(string)
+	if b64, ok := v.Detail["query_b64"].(string); ok {
+		// the query holds bytes that JSON cannot carry
+		if b, err := base64.StdEncoding.DecodeString(b64); err == nil {
+			src = string(b)
+		}
+	}
 	q, err := gojq.Parse(src)
 	switch v.Kind {
 	case "rejected":
@@ -671,6 +750,14 @@ func c09Replay(v *engine.Violation) (bool, string) {
 		return got != v.Detail["tree"], got
 	case "round-trip":
 		msg := c09RoundTrip(src, q)
+		if msg == "" && v.Check == "string-literals" {
+			if q2, err := gojq.Parse(q.String()); err == nil {
+				o1, o2 := Drain(q.Run(map[string]any{}), nil, 10), Drain(q2.Run(map[string]any{}), nil, 10)
+				if o1.String() != o2.String() {
+					msg = fmt.Sprintf("the query yields %s, its printed form yields %s", o1.String(), o2.String())
+				}
+			}
+		}
 		return msg != "", msg
 	case "re-spacing":
 		tr, _ := v.Detail["trusted"].(bool)
@@ -685,7 +772,7 @@ func init() {
 		ID:    "C09",
 		Level: "model_checking",
 		Rule: "every expression TREE with up to three binary operators drawn from all 24 operators (and, in a second grammar, every tree up to 5 nodes, thorough 6, over unary sign, every suffix form, `as`, `def`, `label`, try/catch, if, reduce, array/object/call/interpolation contexts) is rendered to text with the minimal parentheses the reference grammar (jq's precedence table) requires; gojq.Parse of that text must yield exactly that tree. Every ordered pair and triple of operators is thereby covered in both groupings. " +
-			"Every generated text, every text of a surface grammar (all term/suffix/string/format/pattern/keyword-key/module forms, up to 3 nodes, thorough 4) and every corpus query must satisfy Parse(String(q)) deep-equal q with String a fixpoint, and parse to the identical AST under every re-spacing (7 gap kinds incl. comments, uniformly and at each single gap) computed with a reference tokenizer; chains of non-associative operators must be rejected.",
+			"Every generated text, every text of a surface grammar (all term/suffix/string/format/pattern/keyword-key/module forms, up to 3 nodes, thorough 4) and every corpus query must satisfy Parse(String(q)) deep-equal q with String a fixpoint, and parse to the identical AST under every re-spacing (7 gap kinds incl. comments, uniformly and at each single gap) computed with a reference tokenizer; chains of non-associative operators must be rejected. String literals: every sequence of <= 3 pieces out of 28 (raw bytes incl. invalid UTF-8, all escapes, lone and paired surrogate escapes, interpolations) in 9 positions a string can stand must round-trip to the same AST and the same value.",
 		Assume:         []string{"the reference grammar is the precedence table of the jq manual as transcribed in the renderer (gen.P levels); the reference tokenizer treats a string literal with its interpolations as one token", "an edit of parser.go.y that is not regenerated into parser.go is invisible to any dynamic check"},
 		Run:            c09Run,
 		Replay:         c09Replay,
